@@ -255,7 +255,14 @@ func addModuleSentinel(ctx context.Context, rootPath string) (err error) {
 		sentinelLocation = path.Join(fromBundleConfig(ctx).mainRoot, rootPath)
 	}
 
-	pathInBundle := path.Join(ModuleDir, sentinelLocation)
+	// Same mapping as bundleLocalFile: the files of a main script that has no
+	// module of its own live under NoModuleDir, and so must the sentinels of
+	// modules nested below it.
+	dir := ModuleDir
+	if !isImportModule(ctx) && fromBundleConfig(ctx).mainRoot == "" {
+		dir = NoModuleDir
+	}
+	pathInBundle := path.Join(dir, sentinelLocation)
 	if exists, err := ctxfs.FileExists(ctx, bundleFsKey, pathInBundle); err != nil {
 		return err
 	} else if exists {
